@@ -78,7 +78,10 @@ StopListening ==
   /\ step = "done" /\ ~stopped /\ stopped' = TRUE /\ localOpen' = FALSE
   /\ UNCHANGED <<cfgNow, fault, step, loop, asked, exists, result, why, nres>>
 
-Next == Refuse \/ Listen \/ ConfigReady \/ CreateReply \/ Disconnect \/ WaitOver \/ StopListening
+\* descriptor events of another onion service on the same Tor arrive: nothing changes for this listen()
+Foreign == UNCHANGED vars
+
+Next == Foreign \/ Refuse \/ Listen \/ ConfigReady \/ CreateReply \/ Disconnect \/ WaitOver \/ StopListening
 Spec == Init /\ [][Next]_vars
 
 ----------------------------------------------------------------------------
